@@ -20,7 +20,7 @@ import (
 )
 
 var (
-	balanceRegex = regexp.MustCompile(`balance\[(.*)]`)
+	balanceRegex = regexp.MustCompile(`^balance\[(.*)]$`)
 )
 
 func (store *Store) UpdateAccountsMetadata(ctx context.Context, m map[string]metadata.Metadata, at time.Time) error {
